@@ -704,6 +704,13 @@ func (m c04) batchValue(r *core.Rand, i int) {
 		m.batchAccepted(flipBit(want, r.IntN(len(want)*8)), "bitflip", false)
 		m.batchAccepted(splice(want, 0, k, refVarintEnc(l-1)), "length-1", false)
 		m.batchAccepted(splice(want, 0, k, refVarintEnc(uint64(len(rs[0].enc())))), "length-first-only", false)
+		// under-declared lists: the declared length ends inside (or before) the last request; where the true
+		// length needs a wider varint than the declared one, accepting would make the canonical form longer
+		for _, v := range []uint64{2, 3, 51, 52, 53, 60, 63, l - 2, l - 49, l - 52, l - 259} {
+			if v < l {
+				m.batchAccepted(splice(want, 0, k, refVarintEnc(v)), fmt.Sprintf("under-declared#%d", v), false)
+			}
+		}
 	})
 	if pan {
 		m.bad("batched.TokenRequest:panic:"+where, "batch codec panicked: "+pv, d)
